@@ -22,6 +22,7 @@ ASSUMPTIONS = [
     "the interleaving across inputs is unspecified by the property",
 ]
 RULES = {
+    "C08.CTOR": "entry point: every operand becomes the child of its own position, converted by into_future / into_stream only; nothing reorders, drops or duplicates operands",
     "C08.ITEM": "Ready(Some) edge => same-call return of that item unmodified, nothing polled afterwards, input re-armed; Some returns only carry polled items",
     "C08.END": "Ready(None) edge => state None, counter+1 once; counter written nowhere else; Ready(None) only under counter == len; otherwise the scan continues",
     "C08.ONCE": "premise: an input is polled only while live and is marked ended in the poll in which it returns None (ended-counter counts distinct inputs)",
@@ -40,6 +41,8 @@ def run(ctx):
         units = families.subwaker_units(M, ("merge",), groups=False)
         divides = indexer_divides_unguarded(ctx, M)
         c01.live_premises(ctx, M, units, "C08.LIVE")
+        from . import ctors
+        ctors.run_family(ctx, M, units, "C08.CTOR", cfg)
         for u in units:
             rets, claimed = racelike.rule_win(ctx, M, u, "C08.ITEM", ("Ready", "Some"), "Ready(Some)")
             loose = [r for r in rets if r[0] not in claimed]
